@@ -19,8 +19,11 @@ Vocabulary (definitions in `OH.Model.HolidayDb`, `OH.Model.Country`, `OH.Generat
                       regenerated from `generated.rs` by `translators/countries2lean.py` on every run;
 * `abs c`, `Inv c`    the set represented by a calendar value and the reachable-value invariant (C15).
 
-ASSUMPTION (the only one, DESIGN §5 C10): deflate is not modelled — `decodeDb` is applied to the very
-bytes `encodeDb` produced (`inflate ∘ deflate = id`).  Date strings are modelled on the shape
+The deflate layer: in THIS file `decodeDb` is applied to the very bytes `encodeDb` produced.
+`OH/Props/C10I.lean` puts the model of the decoder (`OH.Model.Inflate`, RFC 1951) in between and
+restates the theorems for the embedded pair, under the fact the driver checks on the bytes really
+embedded in the binary (`inflateNat z = encodeDb db`, op `hol.raw`); the encoder is not modelled and
+`inflate ∘ deflate = id` is no longer assumed.  Date strings are modelled on the shape
 `DDDD-DD-DD` only (every line of the two files has it: checked by the driver at run time, op `hol.load`).
 
 The statements about the tables are decided by the kernel on the tables of the CURRENT Rust file; the
